@@ -85,6 +85,19 @@ template <class T, int L, glm::qualifier Q> static void run_common_fp(pbt::Ctx& 
 		auto tol = [](const T* o) { return 8 * eps_<T>() * (fabsl(ld(o[0])) * fabsl(1 - ld(o[2])) + fabsl(ld(o[1])) * fabsl(ld(o[2]))) + 4 * dmin_<T>(); };
 		fn3<V, 5>(fc, "mix", jtol("mix err/tol", tol), md, md2, a, sa, sa, C01_F3(mix), "mix");
 	}
+	// mix with an interpolator of the other floating-point type (mix(vec<float>, vec<float>, double) and the reverse): the documented
+	// formula is evaluated in the interpolator's type U and converted to T once, exactly as the scalar overload mix(T, T, U) does
+	{
+		typedef typename std::conditional<std::is_same<T, float>::value, double, float>::type UT;
+		const UT ua = (c.draw(4) == 0) ? (UT)gen_mod<T>(c, 4, 2) : (UT)c.unit();
+		V r = glm::mix(mkv<V>(md), mkv<V>(md2), ua);
+		for (int i = 0; i < L; ++i) {
+			T w = glm::mix(md[i], md2[i], ua);
+			T e = static_cast<T>(static_cast<UT>(md[i]) * (static_cast<UT>(1) - ua) + static_cast<UT>(md2[i]) * ua);
+			if (!eq_bits(r[i], w) || !eq_bits(r[i], e)) { c.failk(key("mix-other-float-type", "vec.vec.U", L, in.tn), "%s: mix(%s, %s, %s(%.17g)) component %d = %s, scalar mix gives %s, formula in U gives %s", in.name.c_str(), showv(md, L).c_str(), showv(md2, L).c_str(), sizeof(UT) == 4 ? "float" : "double", (double)ua, i, show<T>(r[i]).c_str(), show(w).c_str(), show(e).c_str()); break; }
+		}
+		c.cls("mix: interpolator of the other floating-point type");
+	}
 	// mix with a boolean selector: vec<L,bool> and bool
 	{
 		bool sel[4], sb = c.coin();
@@ -211,6 +224,23 @@ template <class T, int L, glm::qualifier Q> static void run_common_int(pbt::Ctx&
 			if (r1[i] != w1) { c.failk(key("mix-bool", "vec.vec.bool", L, in.tn), "%s: mix(%s, %s, %d) component %d = %s, scalar mix gives %s", in.name.c_str(), showv(x, L).c_str(), showv(y, L).c_str(), (int)sb, i, show<T>(r1[i]).c_str(), show(w1).c_str()); break; }
 		}
 		if (L >= 2 && nt > 0 && nt < L && distinct(x, L) && distinct(y, L)) { fc.nontriv = true; c.cls("mix-bool: mixed selector"); }
+	}
+	// mix with a floating-point interpolator on an integer vector (T and U differ): vec.vec.U and vec.vec.vec<U> against the scalar
+	// overload mix(T, T, U) and against the documented formula T(U(x) * (1 - a) + U(y) * a); operands small, a in [0,1]: the result is representable
+	{
+		T xs[4], ys[4]; float af = (float)c.unit(), av[4]; double ad = c.unit();
+		for (int i = 0; i < L; ++i) { xs[i] = (T)((long long)x[i] % 1000); ys[i] = (T)((long long)y[i] % 1000); av[i] = (c.draw(4) == 0) ? (float)(c.draw(3)) * 0.5f : (float)c.unit(); }
+		V rf = glm::mix(mkv<V>(xs), mkv<V>(ys), af), rd = glm::mix(mkv<V>(xs), mkv<V>(ys), ad);
+		glm::vec<L, float, Q> va; for (int i = 0; i < L; ++i) va[i] = av[i];
+		V rv = glm::mix(mkv<V>(xs), mkv<V>(ys), va);
+		for (int i = 0; i < L; ++i) {
+			T wf = glm::mix(xs[i], ys[i], af), wd = glm::mix(xs[i], ys[i], ad), wv = glm::mix(xs[i], ys[i], av[i]);
+			T ef = static_cast<T>(static_cast<float>(xs[i]) * (1.0f - af) + static_cast<float>(ys[i]) * af), ed = static_cast<T>(static_cast<double>(xs[i]) * (1.0 - ad) + static_cast<double>(ys[i]) * ad);
+			if (rf[i] != wf || rf[i] != ef) { c.failk(key("mix-float-on-int", "vec.vec.float", L, in.tn), "%s: mix(%s, %s, %.9gf) component %d = %s, scalar mix gives %s, formula %s", in.name.c_str(), showv(xs, L).c_str(), showv(ys, L).c_str(), (double)af, i, show<T>(rf[i]).c_str(), show(wf).c_str(), show(ef).c_str()); break; }
+			if (rd[i] != wd || rd[i] != ed) { c.failk(key("mix-float-on-int", "vec.vec.double", L, in.tn), "%s: mix(%s, %s, %.17g) component %d = %s, scalar mix gives %s, formula %s", in.name.c_str(), showv(xs, L).c_str(), showv(ys, L).c_str(), ad, i, show<T>(rd[i]).c_str(), show(wd).c_str(), show(ed).c_str()); break; }
+			if (rv[i] != wv) { c.failk(key("mix-float-on-int", "vec.vec.vec<float>", L, in.tn), "%s: mix(%s, %s, vec<float>) component %d = %s, scalar mix(.., %.9gf) gives %s", in.name.c_str(), showv(xs, L).c_str(), showv(ys, L).c_str(), i, show<T>(rv[i]).c_str(), (double)av[i], show(wv).c_str()); break; }
+		}
+		c.cls("mix: integer vector, floating interpolator");
 	}
 	if (fc.nontriv) c.nontrivial();
 }
